@@ -595,12 +595,9 @@ where
         self.node = None;
         if self.cfg.variant == Variant::Ipc {
             let _ = std::fs::remove_dir_all(&self.root);
-            if let Ok(rd) = std::fs::read_dir("/dev/shm") {
-                for e in rd.flatten() {
-                    if e.file_name().to_string_lossy().contains(&self.prefix) {
-                        let _ = std::fs::remove_file(e.path());
-                    }
-                }
+            // /dev/shm is shared with everything else on the machine: raw readdir, no per-entry allocation
+            for name in scan_shm(&self.prefix) {
+                let _ = std::fs::remove_file(format!("/dev/shm/{name}"));
             }
         }
     }
@@ -673,6 +670,30 @@ fn enabled_ops(c: &Cfg, m: &Model, n_listeners: usize) -> Vec<Op> {
     v
 }
 
+
+
+fn scan_shm(tag: &str) -> Vec<String> {
+    let mut v = Vec::new();
+    let tag = tag.as_bytes();
+    unsafe {
+        let d = libc::opendir(b"/dev/shm\0".as_ptr() as *const libc::c_char);
+        if d.is_null() {
+            return v;
+        }
+        loop {
+            let e = libc::readdir(d);
+            if e.is_null() {
+                break;
+            }
+            let name = std::ffi::CStr::from_ptr((*e).d_name.as_ptr()).to_bytes();
+            if name.len() >= tag.len() && name.windows(tag.len()).any(|w| w == tag) {
+                v.push(String::from_utf8_lossy(name).to_string());
+            }
+        }
+        libc::closedir(d);
+    }
+    v
+}
 
 fn live(slots: &[Option<Kind>]) -> Vec<usize> {
     slots.iter().enumerate().filter(|(_, s)| s.is_some()).map(|(i, _)| i).collect()
